@@ -251,7 +251,7 @@ func runC08(r *mon.Run) {
 			if sig, err := priv.Sign(mkRand(), dig, &secec.ECDSAOptions{Encoding: secec.SignatureEncoding(3 + rng.Intn(100))}); err == nil || sig != nil {
 				w.Fail("c08/Sign:bad-encoding", "Sign produced a signature for an undefined encoding", det...)
 			}
-			if sig, err := priv.Sign(mkRand(), dig, &secec.ECDSAOptions{Encoding: secec.SignatureEncoding(-1 - rng.Intn(5))}); err == nil || sig != nil {
+			if sig, err := priv.Sign(mkRand(), dig, &secec.ECDSAOptions{Encoding: undefinedEncoding(rng)}); err == nil || sig != nil {
 				w.Fail("c08/Sign:bad-encoding", "Sign produced a signature for a negative encoding", det...)
 			}
 		case 3:
